@@ -102,6 +102,8 @@ def run(ck):
                   "sequences; Python-literal reader for %r-printed strings", floor=11)
     ck.rule("R3", "the generic rebuilder rebuilds every kind with its own class and every field in order", floor=9)
     ck.rule("R4", "hash-consing key consistency, modular reduction of ExprInt, identity equality", floor=4)
+    ck.rule("R5", "a constructor that rewrites its arguments reaches a fixed point: rebuilding an expression from its stored components "
+                  "takes the constructor's identity path (necessary for pickle / copy / repr round trips)", floor=3)
 
     tags = {}
     for k in KINDS:
@@ -289,6 +291,8 @@ def run(ck):
     ok = any(isinstance(n, ast.Compare) and isinstance(n.ops[0], ast.Is) and norm(n.left) == "self" for n in walk_body(eq))
     ck.ob("R4", "Expr.__eq__:identity", ok, m.where(eq), "__eq__ has no identity fast path")
 
+    _fixed_point_rules(ck, m)
+
     # ------------------------------------------------------------------ R3 rebuilder
     vis = m.func("ExprVisitorBase.visit")
     E = vis.args.args[1].arg
@@ -456,3 +460,77 @@ def run(ck):
             ck.ob("R2", "%s:string-reader" % k, literal_reader, pm.where(sdef) if sdef is not None else "",
                   "the str field is printed with %r (Python escapes such as \\x01, \\n, \\\\) but read with "
                   "QuotedString(escChar), which only drops the backslash: names with control characters do not round-trip")
+
+
+def _fixed_point_rules(ck, m):
+    """R5.  pickle (__reduce__), copy() and repr/parse all rebuild an expression by calling the constructor on the STORED components.
+    They give back the same object only if the constructor, applied to what it stored, stores the same thing again.  Per path of
+    K.__new__ (sa/symval): the interning key's components as expressions of the parameters, and the path condition.  A path that
+    stores the parameters themselves is an identity path.  For every other path, the identity path's conditions with the parameters
+    replaced by the stored components must follow from that path's own conditions (syntactically: the same atom with the same truth
+    value, a false conjunct for a false conjunction, `<constant> is None`)."""
+    from sa import symval
+    from sa.astutil import clone
+
+    def key_of(p_):
+        v = p_.value
+        if isinstance(v, ast.Call) and dotted(v.func) == "Expr.get_object" and len(v.args) == 2 and isinstance(v.args[1], ast.Tuple):
+            return v.args[1].elts
+        return None
+
+    def implied(test, truth, conds):
+        if isinstance(test, ast.Compare) and len(test.ops) == 1 and isinstance(test.ops[0], (ast.Is, ast.IsNot)) and isinstance(test.left, ast.Constant) \
+                and isinstance(test.comparators[0], ast.Constant):
+            val = (test.left.value is test.comparators[0].value) == isinstance(test.ops[0], ast.Is)
+            return val == truth
+        for t, b in conds:
+            if norm(t) == norm(test) and b == truth:
+                return True
+        if isinstance(test, ast.BoolOp) and isinstance(test.op, ast.And):
+            if truth:
+                return all(implied(v, True, conds) for v in test.values)
+            return any(implied(v, False, conds) for v in test.values)
+        if isinstance(test, ast.BoolOp) and isinstance(test.op, ast.Or):
+            if truth:
+                return any(implied(v, True, conds) for v in test.values)
+            return all(implied(v, False, conds) for v in test.values)
+        if isinstance(test, ast.UnaryOp) and isinstance(test.op, ast.Not):
+            return implied(test.operand, not truth, conds)
+        return False
+
+    for k in KINDS:
+        new = m.func(k + ".__new__")
+        params = [a.arg for a in new.args.args[1:]]
+        if new.args.vararg is not None:
+            continue                                           # (op, *args) / (*args): stored as given, covered by R1/R4
+        ps = [(p_, key_of(p_)) for p_ in symval.paths(new.body) if p_.kind == "return"]
+        # a path that hands over to the constructor itself (`return cls(...)`) stores what that call stores: by induction it needs no check
+        ps = [(p_, kk) for p_, kk in ps if not (kk is None and isinstance(p_.value, ast.Call) and norm(p_.value.func) in ("cls", k))]
+        if not ps or any(kk is None or len(kk) != len(params) for _p, kk in ps):
+            continue                                           # ExprInt: the key is built through a masked temporary (R4 modular)
+        ident = [(p_, kk) for p_, kk in ps if [norm(x) for x in kk] == params]
+        if len(ident) == len(ps):
+            ck.ob("R5", "%s.__new__:rebuild-fixed-point" % k, True, m.where(new), "stores its arguments as given")
+            continue
+        ck.need(ident, "%s.__new__: no path stores the arguments as given" % k)
+        bad = []
+        for p_, kk in ps:
+            if (p_, kk) in ident:
+                continue
+            sub = dict(zip(params, kk))
+
+            class S(ast.NodeTransformer):
+                def visit_Name(self, n):
+                    if n.id in sub and isinstance(n.ctx, ast.Load):
+                        return clone(sub[n.id])
+                    return n
+            ok = False
+            for ip, _ik in ident:
+                if all(implied(S().visit(clone(t)), b, p_.conds) for t, b in ip.conds):
+                    ok = True
+            if not ok:
+                bad.append("under [%s] the constructor stores (%s); built again from these it is not known to take the identity path [%s]"
+                           % (", ".join("%s is %s" % (norm(t), b) for t, b in p_.conds), ", ".join(norm(x) for x in kk),
+                              ", ".join("%s is %s" % (norm(S().visit(clone(t))), b) for t, b in ident[0][0].conds)))
+        ck.ob("R5", "%s.__new__:rebuild-fixed-point" % k, not bad, m.where(new),
+              "%s: pickle / copy / repr-parse of such an expression return a different expression" % "; ".join(bad[:2]))
